@@ -2,6 +2,8 @@
 (* C05: (1) the theorem run and (2) the value-template enumeration.
 
    One state = one (hint shape, well-typed abstract value) pair.
+   Three steps per state: pick the shape h, pick the value v \in W(h, 1), (meta only) mark it chk -- the
+   invariants are guarded by chk so that TLC's workers share their evaluation.
    W(h, lvl) is the set of well-typed values of hint h, containers at nesting level lvl being at most
    Widths[lvl] wide (1 beyond the end of Widths); strings, dict keys and type names come from the
    vocabularies below, which contain the encoder's own markers.
@@ -97,6 +99,7 @@ W(hh, lvl) ==
       [] hh.k = "dc"      -> DCVals(hh.c)
       [] hh.k = "any"     -> AnyVals(lvl)
       [] hh.k = "other"   -> W(hh.g, lvl)
+      [] hh.k = "dflt"    -> {}              \* a hint the concretiser cannot populate: only the empty container
 
 MetaShapes == { MetaSchema.Box[i][2] : i \in DOMAIN MetaSchema.Box }
 Shapes == IF Mode = "meta" THEN MetaShapes ELSE GenShapes
